@@ -318,6 +318,9 @@ impl Property for C06 {
     fn id(&self) -> &'static str {
         "C06"
     }
+    fn regimes(&self) -> &'static str {
+        crate::gen::REGIMES_CATALOGUE
+    }
     fn rule(&self) -> String {
         "proptest: weighted problem P(w) and its twin P' = (row-scaled model, W∘Y, no weights); weight classes positive (1e-3..1e3 and 0.5..2), with zeros, with negatives; S in 1..4. Differential oracle: (1) at every alpha of an LM run on P the same alpha is applied to P' and coefficients, residuals and Jacobian agree (bitwise, else condition-aware tolerance), (2) independent fits agree in verdict and result, (3) single rhs: reduced chi2 and covariance agree, (4) all-ones weights behave like no weights, (5) a zero weight: replacing that observation changes nothing, deleting the row gives the same coefficients. Non-trivial: max|w|/min|w| >= 2".into()
     }
